@@ -342,6 +342,10 @@ def model(m, s, fi, t, fk, args, site):
         mm = re.search(r"Result<&?(?:mut )?\[[a-z0-9]+; (\d+)\]", ty)
         if seq is not None and mm:
             if len(seq) == int(mm.group(1)):
+                by_ref = re.search(r"Result<&", ty.replace(" ", "")) is not None
+                ref0, _ = seq_of(m, s, args[0])
+                if by_ref and ref0 is not None:
+                    return Adt(RES, "Ok", [ref0])          # `&[u8] → &[u8; N]` / `&mut [u8] → &mut [u8; N]`: the same bytes, not a copy
                 return Adt(RES, "Ok", [Tup([m._freeze(s, x) for x in seq])])
             return Adt(RES, "Err", [T("TryFromSliceError")])
         if isinstance(A[0], int) and "Result<u" in ty.replace(" ", ""):
